@@ -25,6 +25,9 @@ class Prog:
     def setmode(self, m):
         self.ops.append({'op': 'SetMode', 'm': m})
 
+    def setconv(self, on):
+        self.ops.append({'op': 'SetConv', 'on': bool(on)})
+
     def make(self, z, cls, a, u, rep='dec'):
         self.ops.append({'op': 'Make', 'z': z, 'cls': cls, 'a': nd(a), 'u': u or 'NONE', 'rep': rep})
 
